@@ -4,4 +4,5 @@ CONSTANTS
   Profiles <- ProfB
 INVARIANT ChainLin
 INVARIANT ChainSq
+INVARIANT TableOK
 CHECK_DEADLOCK FALSE
